@@ -264,7 +264,7 @@ def build(prop, clean=False):
             if rc != 0:
                 res.audit_problems.append("audit failed: " + out[-800:])
             cur = None
-            text = out.replace("\n  ", " ")
+            text = re.sub(r"\n[ \t]+", " ", out)      # `#print axioms` wraps long names / axiom lists onto indented lines
             for line in text.splitlines():
                 m = re.match(r"'([^']+)' depends on axioms: \[(.*)\]", line)
                 if m:
@@ -495,10 +495,8 @@ def load_property(pid):
     # class-attribute table regenerated from the source (harness/extractors/classtable.py): the agreement theorems
     # of Proofs/ClassTable.lean that concern this property are obligations of its check
     if not getattr(prop, "_classtable_wired", False):
-        try:
-            from harness.extractors.classtable import OBLIGATIONS
-        except Exception:
-            OBLIGATIONS = {}
+        # an extractor that cannot be imported is a broken obligation of every check, not a reason to drop them
+        from harness.extractors.classtable import OBLIGATIONS
         extra = [t for t in OBLIGATIONS.get(pid, []) if t not in prop.generated_obligations]
         if extra:
             prop.generated_obligations = list(prop.generated_obligations) + extra
